@@ -16,6 +16,8 @@ import ParryModel.C04.Theorems4
   (`hf2_pinned_rule_walks_backwards`).
 * the corrected cast on a scaled field only reports hits of existing cells (`hf2_castScaled_sound`) and its walk skips no cell
   ahead of the ray before the `max_t` exit, for either sign of the x scale (`hf2_castScaled_walk_complete_up`, `_down`).
+* the 3-D field: column / row lines are met in increasing index order exactly when `dir.x * scale.x > 0` / `dir.z * scale.z > 0`
+  (`hf3_colParam_lt_iff`, `hf3_rowParam_lt_iff`) — the rule of the corrected 3-D walk (fix 079c635).
 -/
 namespace C19
 open Model
@@ -250,5 +252,46 @@ theorem hf2_castScaled_walk_complete_down (h : HeightField2 K) (ray : Ray2 K) (m
       = -((h.ucw * h.sc.x * lit ((c' : Nat) : Int) + h.sc.x * lit (-1) 2 - ray.o.x) / ray.d.x) := by
     rw [← neg_div]; congr 1; ring
   rw [e]; exact this
+
+/-! ## the 3-D walk (fix 079c635): direction in index space = sign of `dir * scale` -/
+
+private theorem lit_nat'' (c : Nat) : @Model.lit K (fieldNum K sq) ((c : Nat) : Int) 1 = (c : K) := by
+  rw [fieldNum_lit]; simp [Rat.mkRat_one]
+
+private theorem param_lt_iff (w s o d a b : K) (hw : 0 < w) (hd : d ≠ 0) (hab : a < b) :
+    ((-(1 / 2 : K) + w * a) * s - o) / d < ((-(1 / 2 : K) + w * b) * s - o) / d ↔ 0 < d * s := by
+  have hd2 : 0 < d ^ 2 := by positivity
+  have key : ((-(1 / 2 : K) + w * b) * s - o) / d - ((-(1 / 2 : K) + w * a) * s - o) / d = (w * (b - a) / d ^ 2) * (d * s) := by
+    field_simp
+    ring
+  have kpos : 0 < w * (b - a) / d ^ 2 := by
+    have : 0 < b - a := by linarith
+    positivity
+  rw [← sub_pos, key]
+  exact ⟨fun hh => (pos_iff_pos_of_mul_pos hh).1 kpos, fun hh => mul_pos kpos hh⟩
+
+/-- **3-D HeightField, columns**: a ray with `dir.x ≠ 0` meets the column lines `x = x_at(j)` in increasing index order exactly when
+`dir.x * scale.x > 0` — the rule of the corrected 3-D walk (`dir_j = ray.dir.x * scale.x`, fix 079c635). -/
+theorem hf3_colParam_lt_iff (h : HeightField3 K) (ox dx : K) (hn : 2 ≤ h.nc) (hd : dx ≠ 0) (j j' : Nat) (hj : j < j') :
+    letI := fieldNum K sq
+    (h.xAt j - ox) / dx < (h.xAt j' - ox) / dx ↔ 0 < dx * h.sc.x := by
+  have hlit : @Model.lit K (fieldNum K sq) 1 2 = (1 / 2 : K) := by rw [fieldNum_lit]; norm_num
+  simp only [HeightField3.xAt, HeightField3.ucw, lit_nat'', hlit]
+  have hn' : (0 : K) < (h.nc : K) - 1 := by
+    have : (2 : K) ≤ (h.nc : K) := by exact_mod_cast hn
+    linarith
+  exact param_lt_iff _ _ _ _ _ _ (by positivity) hd (by exact_mod_cast hj)
+
+/-- **3-D HeightField, rows**: likewise for the row lines `z = z_at(i)` and `dir.z * scale.z` -/
+theorem hf3_rowParam_lt_iff (h : HeightField3 K) (oz dz : K) (hn : 2 ≤ h.nr) (hd : dz ≠ 0) (i i' : Nat) (hi : i < i') :
+    letI := fieldNum K sq
+    (h.zAt i - oz) / dz < (h.zAt i' - oz) / dz ↔ 0 < dz * h.sc.z := by
+  have hlit : @Model.lit K (fieldNum K sq) 1 2 = (1 / 2 : K) := by rw [fieldNum_lit]; norm_num
+  simp only [HeightField3.zAt, HeightField3.uch, lit_nat'', hlit]
+  have hn' : (0 : K) < (h.nr : K) - 1 := by
+    have : (2 : K) ≤ (h.nr : K) := by exact_mod_cast hn
+    linarith
+  exact param_lt_iff _ _ _ _ _ _ (by positivity) hd (by exact_mod_cast hi)
+
 
 end C19
